@@ -73,6 +73,31 @@ CHECKS = {
         design_ref="DESIGN.md 4 C05",
         note="Trusted: TLC/SANY/Json; generic-point argument for polynomial identities (random integer leaves per seed); float32 exact; depth 2 exhaustive (3 thorough), depth 4 simulated.",
     ),
+    "C06": dict(
+        engine="tlc+replay",
+        technique="TLA+ value-level spec of the convolve-and-contract layer; TLC checks bank invariance and LayerOut(g.x)=g.LayerOut(x) on integer weights/biases/inputs with the library's own bank; the real layer is bound to LayerOut exactly; float metamorphic check with perturbed parameters on the code",
+        category="model_checking",
+        text=("For harness-supplied integer inputs, weights and biases and the library's scale='one' bank, TLC checks as invariants that every "
+              "filter is fixed by the listed group elements and that the spec layer commutes with them block by block under the transported "
+              "configuration -- all five bias modes, TORUS/SAME/up-sampling (even filter, literal padding, image dilation), filter dilation, "
+              "d=2,3, full and subgroup banks; the real ml.ConvContract with those parameters (eqx.tree_at) must equal LayerOut exactly. "
+              "Separately (exploration) default normalised banks with weights and biases perturbed off initialisation: layer(g.x) vs "
+              "g.layer(x) for every g of the bank's group and cyclic shifts, per-block relative defect <= 1e-4."),
+        design_ref="DESIGN.md 4 C06",
+        note="Trusted: TLC/SANY/Json; generic-point argument for the multilinear part; float part is sampling with tolerance (floor RMS 1e-2 on numerically-zero blocks).",
+    ),
+    "C11": dict(
+        engine="tlc+replay",
+        technique="TLA+ spec of the layer's emitted signature (Emitted/BiasKind) model-checked over the signature x bank-key x bias-mode lattice, and of its value (LayerOutChan) evaluated by TLC on integer cases; both replayed exactly into ml.ConvContract",
+        category="model_checking",
+        text=("MC_LayerSig enumerates every (input signature, target signature, bank key set, bias mode) in the bounds and checks that "
+              "Emitted contains exactly the requested types reachable through an existing filter type, with their channels, in requested "
+              "order, and that additive bias is confined to true scalars; a seeded sample is replayed on real layers (signature, shape, D, "
+              "flags). Gen_LayerValue computes the exact output numerators (bias terms included, denominator npix) of random integer layers "
+              "with the library's own bank; the real layer must reproduce every block exactly -- nothing reachable dropped."),
+        design_ref="DESIGN.md 4 C11",
+        note="Trusted: TLC/SANY/Json; float32 exact on small integers, npix a power of two. Signature lattice sampled for replay (240 / 4000).",
+    ),
     "C12": dict(
         engine="tlc+replay",
         technique="TLA+ multi-image store machine (MultiImage.tla operators defined by type, explicit storage order) model-checked over all construction histories; every TLC behaviour replayed into real MultiImage objects with the full abstract state compared after each step",
